@@ -1,0 +1,55 @@
+// Copyright 2026 The osvbng Authors
+// Licensed under the GNU General Public License v3.0 or later.
+// SPDX-License-Identifier: GPL-3.0-or-later
+
+package config
+
+import (
+	"strings"
+	"testing"
+
+	"github.com/veesix-networks/osvbng/pkg/config/ip"
+)
+
+func TestValidateSubscriberPoolOverlap(t *testing.T) {
+	v4 := func(name, network, start, end, vrf string) ip.IPv4Pool {
+		return ip.IPv4Pool{Name: name, Network: network, RangeStart: start, RangeEnd: end, VRF: vrf}
+	}
+	tests := []struct {
+		name    string
+		cfg     *Config
+		wantErr string
+	}{
+		{"disjoint pools of one profile", &Config{IPv4Profiles: map[string]*ip.IPv4Profile{
+			"a": {Pools: []ip.IPv4Pool{v4("p1", "10.0.0.0/24", "", "", ""), v4("p2", "10.0.1.0/24", "", "", "")}}}}, ""},
+		{"same range in two vrfs", &Config{IPv4Profiles: map[string]*ip.IPv4Profile{
+			"a": {Pools: []ip.IPv4Pool{v4("p1", "10.0.0.0/24", "", "", ""), v4("p2", "10.0.0.0/24", "", "", "blue")}}}}, ""},
+		{"two profiles share an address in the default vrf", &Config{IPv4Profiles: map[string]*ip.IPv4Profile{
+			"a": {Pools: []ip.IPv4Pool{v4("p1", "10.0.0.0/24", "10.0.0.10", "10.0.0.20", "")}},
+			"b": {Pools: []ip.IPv4Pool{v4("p2", "10.0.0.0/24", "10.0.0.20", "10.0.0.30", "")}}}}, "ipv4 pools"},
+		{"disjoint ranges of one network", &Config{IPv4Profiles: map[string]*ip.IPv4Profile{
+			"a": {Pools: []ip.IPv4Pool{v4("p1", "10.0.0.0/24", "10.0.0.10", "10.0.0.19", "")}},
+			"b": {Pools: []ip.IPv4Pool{v4("p2", "10.0.0.0/24", "10.0.0.20", "10.0.0.30", "")}}}}, ""},
+		{"iana pools overlap", &Config{IPv6Profiles: map[string]*ip.IPv6Profile{
+			"a": {IANAPools: []ip.IANAPool{{Name: "i1", Network: "2001:db8::/64", RangeStart: "2001:db8::1", RangeEnd: "2001:db8::ff"}}},
+			"b": {IANAPools: []ip.IANAPool{{Name: "i2", Network: "2001:db8::/64", RangeStart: "2001:db8::80", RangeEnd: "2001:db8::1ff"}}}}}, "iana pools"},
+		{"pd pool inside another", &Config{IPv6Profiles: map[string]*ip.IPv6Profile{
+			"a": {PDPools: []ip.PDPool{{Name: "d1", Network: "2001:db8:100::/40", PrefixLength: 56},
+				{Name: "d2", Network: "2001:db8:101::/48", PrefixLength: 56}}}}}, "pd pools"},
+		{"pd pools apart, iana and pd may share a network", &Config{IPv6Profiles: map[string]*ip.IPv6Profile{
+			"a": {IANAPools: []ip.IANAPool{{Name: "i1", Network: "2001:db8:100::/64"}},
+				PDPools: []ip.PDPool{{Name: "d1", Network: "2001:db8:100::/48", PrefixLength: 56},
+					{Name: "d2", Network: "2001:db8:200::/48", PrefixLength: 56}}}}}, ""},
+	}
+	for _, tt := range tests {
+		t.Run(tt.name, func(t *testing.T) {
+			err := tt.cfg.validateSubscriberPoolOverlap()
+			if tt.wantErr == "" && err != nil {
+				t.Fatalf("unexpected error: %v", err)
+			}
+			if tt.wantErr != "" && (err == nil || !strings.Contains(err.Error(), tt.wantErr)) {
+				t.Fatalf("want error containing %q, got %v", tt.wantErr, err)
+			}
+		})
+	}
+}
